@@ -11,7 +11,8 @@ RULE = ("Cases: pairs (a, b) of generated curves/surfaces/volumes: b a deep copy
         "interior knot moved inside its neighbours, one degree with a valid redefinition), or a shape of another kind / "
         "rationality built from identical data; oracle = reflexivity, symmetry, != is the negation of ==, copies equal, "
         "any single change makes them unequal.")
-ASSUMPTIONS = ["changes are >= 1e-5 and 'equal' pairs are bit-identical, so the verdict is the same for every comparison tolerance <= 1e-6; the tolerance value itself (documented: 10**-precision) is deliberately not pinned"]
+ASSUMPTIONS = ["eq: changes are >= 1e-5 and 'equal' pairs are bit-identical, so the verdict is the same for every comparison tolerance <= 1e-6",
+               "fine: the comparison tolerance is the documented 10**-precision ('number of decimal places', default 18); changes of >= 100 tolerances must be seen, nothing is asserted about changes below the tolerance"]
 
 CHANGES = ["coordinate", "weight", "weight-only-w", "knot", "degree", "size", "kind", "rationality", "rationality-dim", "none"]
 
@@ -187,8 +188,97 @@ def check_eq(case, ctx):
     ctx.check((a == 1) is False and (a == "x") is False and (a == None) is False, "foreign-equal", "shape equals a non-shape")  # noqa: E711
 
 
+# ------------------------------------------------------------------------------------------------ small changes
+@st.composite
+def _fine_cases(draw, tier):
+    d = draw(gen.spline(max_p=3, max_extra=3, vol_max_p=2, vol_max_extra=2, unclamped="maybe", affine_range="maybe",
+                        normalize="maybe"))
+    return {"defn": d, "what": draw(st.sampled_from(["knot", "knot", "coordinate", "weight"])), "idx": draw(st.integers(0, 10 ** 6)),
+            "coord": draw(st.integers(0, 5)), "precision": draw(st.sampled_from([18, 18, 18, 16, 14, 12, 9, 6])),
+            "factor": draw(st.sampled_from([100.0, 1000.0, 4096.0, 1048576.0])), "sign": draw(st.sampled_from([1, -1])),
+            "route": draw(st.sampled_from(["copy", "rebuild"]))}
+
+
+def _bump(x, step, sign, tol):
+    """x moved by about `step` (at least 50 tolerances, at least a few units in the last place)."""
+    import math
+    y = x + sign * step
+    if abs(y - x) < 50 * tol:
+        y = x
+        for _ in range(8):
+            y = math.nextafter(y, math.inf if sign > 0 else -math.inf)
+    return y if abs(y - x) >= 50 * tol else None
+
+
+def check_fine(case, ctx):
+    """The comparison tolerance is the documented one (10**-precision, 'number of decimal places'): a change of one
+    component by 100 tolerances or more - far below anything a drawing would show - still makes the shapes unequal."""
+    d = case["defn"]
+    pr = case["precision"]
+    tol = 10.0 ** -pr
+    a = build.make(d, precision=pr)
+    b = copy.deepcopy(a) if case["route"] == "copy" else build.make(d, precision=pr)
+    ctx.check((a == b) is True and (b == a) is True, "equal-definitions-unequal", "two shapes with identical definitions (precision=%d) compare unequal" % pr)
+    step = case["factor"] * tol
+    idx = case["idx"]
+    sfx = [""] if d["kind"] == "curve" else ["_u", "_v", "_w"][:len(d["degree"])]
+    if case["what"] == "knot":
+        k = idx % len(sfx)
+        kv = build.kvs_of(a)[k]
+        p, n = d["degree"][k], d["size"][k]
+        inner = list(range(p + 1, n))
+        if not inner:
+            ctx.label("no-interior-knot")
+            return
+        j = inner[(idx // 7) % len(inner)]
+        new = None
+        for sg in (case["sign"], -case["sign"]):
+            y = _bump(kv[j], step, sg, tol)
+            if y is not None and kv[j - 1] <= y <= kv[j + 1] and (j - 1 > 0 or y > kv[0]) and (j + 1 < len(kv) - 1 or y < kv[-1]):
+                new = y
+                break
+        if new is None:
+            ctx.label("no-room-for-the-change")
+            return
+        nkv = list(kv)
+        nkv[j] = new
+        setattr(b, "knotvector" + sfx[k], nkv)
+        desc = "knot %d of direction %d moved from %r to %r" % (j, k, kv[j], new)
+        size = abs(new - kv[j])
+    else:
+        pts = build.stored_points(a)
+        i = idx % len(pts)
+        if case["what"] == "weight":
+            if not d["rational"]:
+                ctx.label("change-not-applicable")
+                return
+            c = len(pts[i]) - 1
+        else:
+            c = case["coord"] % d["dim"]
+        y = _bump(pts[i][c], step, case["sign"], tol)
+        if y is None or (case["what"] == "weight" and y <= 0):
+            ctx.label("no-room-for-the-change")
+            return
+        size = abs(y - pts[i][c])
+        desc = "stored control point %d component %d moved from %r to %r" % (i, c, pts[i][c], y)
+        pts[i][c] = y
+        b.set_ctrlpts(pts, *build.sizes_of(a))
+    ctx.label("precision:%d" % pr)
+    ctx.label("change:" + case["what"])
+    ctx.label("change-below-1e-9", size < 1e-9)
+    ctx.nt(True, "small-single-change")
+    ab, ba = (a == b), (b == a)
+    ctx.check(ab == ba, "not-symmetric", "a == b is %r but b == a is %r (%s)" % (ab, ba, desc))
+    ctx.check(ab is False and ba is False, "small-change-not-detected",
+              "shapes with precision=%d (comparison tolerance %g) differing by [%s] (%g = %.0f tolerances) compare equal" % (pr, tol, desc, size, size / tol))
+    ctx.check((a != b) == (not ab), "ne-not-negation", "!= is not the negation of == (%s)" % desc)
+
+
 SUBCHECKS = [
     SubCheck("eq", _cases, check_eq, quick=700, thorough=4000, shards_quick=2,
              rule="non-trivial = pair differing in exactly one component (counted per kind of change) or an identical rebuild; "
                   "not-applicable changes are labelled and not counted"),
+    SubCheck("fine", _fine_cases, check_fine, quick=500, thorough=3000,
+             rule="shapes built with precision 6..18; non-trivial = pair differing in exactly one stored knot / coordinate / weight by "
+                  "100 .. 10^6 comparison tolerances (10**-precision), at least a few units in the last place"),
 ]
